@@ -43,6 +43,7 @@ func (c08) Plan(tier string) []core.Segment {
 		{Gen: "specmut", Count: scale(tier, 40_000, 1_500_000)},
 		{Gen: "partition13", Count: scale(tier, 2_000, 60_000), Desc: "documents of 7-13 bytes, all partitions x 2 EOF styles", Batch: 200},
 		{Gen: "patho", Count: gen.PathoCount(), Exhaustive: true},
+		{Gen: "bigdoc", Count: scale(tier, 800, 20000), Desc: "8-40 KiB documents of many small blocks with NUL/CR/multi-byte bytes planted at 8 KiB multiples", Batch: 50},
 		{Gen: "prose", Count: scale(tier, 10, 100), Desc: "large prose with NUL runs / CR at 8 KiB chunk edges", Batch: 1},
 	}
 }
